@@ -61,6 +61,8 @@ type RouterPlan struct {
 	Net        NetSpec               `json:"net"`
 	ClockJumps []ClockJump           `json:"clock_jumps,omitempty"`
 	HorizonUs  int64                 `json:"horizon_us"`
+	// MetricsAddr: the prometheus endpoint (started before everything else).
+	MetricsAddr string `json:"metrics_addr,omitempty"`
 	// CloseAtUs > 0: close the router at this time (C18).
 	CloseAtUs int64 `json:"close_at_us,omitempty"`
 	// StartFault makes start-up fail (C18/C10): see scen.
